@@ -784,10 +784,6 @@ pub fn run_session(ctx: &mut Ctx, v: &J) {
             }
         }
         let slotfree = ex["slotfree"].as_bool().unwrap_or(false);
-        if !relcb && !ex["nobytes"].as_bool().unwrap_or(false) && !bytes_list_equiv(&ex["bytes"], &o["bytes"], slotfree) {
-            ctx.mismatch(&sp, v, "bytes-differ", json!({"step": i, "event": e, "want": ex["bytes"], "got": o["bytes"]}));
-            return;
-        }
         if ex["protonly"].as_bool().unwrap_or(false) {
             // C02 on a structure: only the protected slots (element 1, and element 2 of a five-element Sig_structure)
             let last = |x: &J| -> Option<Vec<u8>> {
@@ -824,6 +820,10 @@ pub fn run_session(ctx: &mut Ctx, v: &J) {
                 return;
             }
             continue;
+        }
+        if !relcb && !ex["nobytes"].as_bool().unwrap_or(false) && !bytes_list_equiv(&ex["bytes"], &o["bytes"], slotfree) {
+            ctx.mismatch(&sp, v, "bytes-differ", json!({"step": i, "event": e, "want": ex["bytes"], "got": o["bytes"]}));
+            return;
         }
         if relcb {
             let (ea, oa) = (ex["cb"].as_array().cloned().unwrap_or_default(), o["cb"].as_array().cloned().unwrap_or_default());
